@@ -914,6 +914,266 @@ fn check_sendable(inst: &mut Inst, findings: &mut Vec<Finding>, rep: &mut Report
     let _ = inst.ctx.take_violations();
 }
 
+/// C02 / C03 (one shard in the quick tier, four in the thorough tier): a builder with more than 2^16 stages (every filler system is
+/// followed by a barrier), then a few named systems behind the last barrier that depend on one
+/// another. Dependants sit strictly later than what they depend on, and nothing registered behind
+/// the last barrier sits in or before a filler's stage.
+fn deep_plan_case(rng: &mut Rng, up: &str, rep: &mut Report, case_no: u64) {
+    use crate::sys::HSys;
+    use shred::DispatcherBuilder;
+    rep.evaluations += 1;
+    let fillers = 65_536 + rng.range(0, 3);
+    let ctx = Ctx::new(fillers + 16, 64);
+    let pool = crate::sys::make_pool(1);
+    let mut b = DispatcherBuilder::new();
+    #[cfg(feature = "parallel")]
+    b.add_pool(pool.clone());
+    let _ = &pool;
+    let sp = |uid: u32| SysSpec { uid, name: String::new(), deps: vec![], reads: vec![], writes: vec![], time: 3, kind: Kind::Dyn };
+    for i in 0..fillers {
+        b.add(HSys::new(&sp(i as u32 + 1), &ctx), "", &[]);
+        b.add_barrier();
+    }
+    let base = fillers as u32 + 1;
+    // p, late, x -> late, y -> {p, x}, z -> y
+    let tail: [(&str, &[&str]); 5] = [("p", &[]), ("late", &[]), ("x", &["late"]), ("y", &["p", "x"]), ("z", &["y"])];
+    for (i, (name, deps)) in tail.iter().enumerate() {
+        b.add(HSys::new(&sp(base + i as u32), &ctx), name, deps);
+    }
+    let mut d = b.build();
+    let world = crate::res::full_world();
+    let layout = match crate::layout::recover(&mut d, &ctx, &world) {
+        Ok(l) => l,
+        Err(e) => {
+            rep.metric("other_property_findings", 1);
+            rep.notes.push(format!("case {}: {}", case_no, e));
+            return;
+        }
+    };
+    rep.metric("deep_plans", 1);
+    rep.metric_max("stages", layout.stages.len() as i64);
+    let pos = layout.pos();
+    let at = |i: usize| pos.get(&(base + i as u32)).cloned();
+    let mut problems: Vec<(String, String)> = Vec::new();
+    let last_filler_stage = pos.get(&(fillers as u32)).map(|p| p.0).unwrap_or(0);
+    for (i, (name, deps)) in tail.iter().enumerate() {
+        let Some(me) = at(i) else {
+            problems.push(("layout_missing".into(), format!("system {:?} is not in the layout", name)));
+            continue;
+        };
+        if me.0 <= last_filler_stage {
+            problems.push(("layout_barrier".into(), format!("{:?}, registered behind the last of {} barriers, sits in stage {} - not behind stage {} of the last system in front of that barrier", name, fillers, me.0, last_filler_stage)));
+        }
+        for dn in deps.iter() {
+            let j = tail.iter().position(|t| t.0 == *dn).unwrap();
+            if let Some(dp) = at(j) {
+                let ok = dp.0 < me.0 || (dp.0 == me.0 && dp.1 == me.1 && dp.2 < me.2);
+                if !ok {
+                    problems.push(("layout_dep_not_before".into(), format!("in a plan of {} stages {:?} (stage {}, group {}, pos {}) depends on {:?} (stage {}, group {}, pos {}) but is not placed after it", layout.stages.len(), name, me.0, me.1, me.2, dn, dp.0, dp.1, dp.2)));
+                }
+            }
+        }
+    }
+    let want = if up == "C03" { "layout_barrier" } else { "layout_dep_not_before" };
+    let mut any = false;
+    for (k, m) in &problems {
+        if k == want || k == "layout_missing" {
+            if !any {
+                rep.violation(&format!("{}:deep_plan", k), m, case_no, J::obj().set("fillers_each_followed_by_a_barrier", fillers));
+            }
+            any = true;
+        } else {
+            rep.metric("other_property_findings", 1);
+        }
+    }
+    if !any {
+        rep.nontrivial(mix(0xdee9, fillers as u64));
+    }
+}
+
+/// (uid, thread) of the thread-local starts in the log, in order.
+fn tl_starts(evs: &[Event], of: &[u32]) -> Vec<(u32, u16)> {
+    evs.iter().filter(|e| e.kind == Ev::TlStart && of.contains(&e.uid)).map(|e| (e.uid, e.thread)).collect()
+}
+
+/// C12, hand-made scenario: a whole dispatcher - with thread-local systems of its own -
+/// registered as a thread-local system of another dispatcher (`Dispatcher` is a `RunNow`), nested
+/// up to two deep. Per dispatch of the outermost one every thread-local system of every level
+/// runs once, on the calling thread, in registration order (a nested dispatcher's systems at the
+/// nested dispatcher's position).
+fn c12_nested_tl_dispatcher(rng: &mut Rng, pools: &mut Pools, rep: &mut Report, case_no: u64) {
+    use crate::sys::{HSys, HTl};
+    use shred::DispatcherBuilder;
+    rep.evaluations += 1;
+    let pool_size = *rng.pick(&[1usize, 2, 4]);
+    let pool = pools.get(pool_size);
+    let mut uid = 1u32;
+    let ctx = Ctx::new(64, 4096);
+    let mut order: Vec<u32> = Vec::new();
+    let mut desc: Vec<String> = Vec::new();
+    // recursive construction, innermost first is not needed: build depth-first
+    fn level(depth: usize, rng: &mut Rng, pool: &Pool, ctx: &Arc<Ctx>, uid: &mut u32, order: &mut Vec<u32>, desc: &mut Vec<String>) -> shred::Dispatcher<'static, 'static> {
+        let mut b = DispatcherBuilder::new();
+        #[cfg(feature = "parallel")]
+        b.add_pool(pool.clone());
+        let _ = pool;
+        for _ in 0..rng.range(0, 2) {
+            let sp = SysSpec { uid: *uid, name: String::new(), deps: vec![], reads: vec![], writes: vec![], time: 3, kind: Kind::Dyn };
+            *uid += 1;
+            b.add(HSys::new(&sp, ctx), "", &[]);
+        }
+        let before = rng.range(0, 2);
+        let after = rng.range(1, 3);
+        let nest_here = depth > 0;
+        for _ in 0..before {
+            let t = TlSpec { uid: *uid, reads: vec![], writes: vec![] };
+            *uid += 1;
+            order.push(t.uid);
+            desc.push(format!("{}tl u{}", "  ".repeat(2 - depth.min(2)), t.uid));
+            b.add_thread_local(HTl::new(&t, ctx));
+        }
+        if nest_here {
+            desc.push(format!("{}nested dispatcher:", "  ".repeat(2 - depth.min(2))));
+            let inner = level(depth - 1, rng, pool, ctx, uid, order, desc);
+            b.add_thread_local(inner);
+        }
+        for _ in 0..after {
+            let t = TlSpec { uid: *uid, reads: vec![], writes: vec![] };
+            *uid += 1;
+            order.push(t.uid);
+            desc.push(format!("{}tl u{}", "  ".repeat(2 - depth.min(2)), t.uid));
+            b.add_thread_local(HTl::new(&t, ctx));
+        }
+        b.build()
+    }
+    let depth = rng.range(1, 2);
+    let mut d = level(depth, rng, &pool, &ctx, &mut uid, &mut order, &mut desc);
+    let world = crate::res::full_world();
+    let caller = tid();
+    for di in 0..rng.range(2, 3) {
+        ctx.log.reset();
+        ctx.arm(Arc::new(Jitter { seed: rng.next(), level: 0 }));
+        ctx.set_mode(Mode::Run);
+        let how = rng.below(3);
+        let r = std::panic::catch_unwind(std::panic::AssertUnwindSafe(|| match how {
+            0 => d.dispatch(&world),
+            1 => {
+                d.dispatch_seq(&world);
+                d.dispatch_thread_local(&world);
+            }
+            _ => shred::RunNow::run_now(&mut d, &world),
+        }));
+        ctx.set_mode(Mode::Build);
+        ctx.disarm();
+        if let Err(p) = r {
+            rep.violation("dispatch_panicked:nested_dispatcher", &format!("dispatch #{} of a dispatcher that holds a nested dispatcher as a thread-local system panicked: {}", di + 1, payload_str(&*p)), case_no, J::obj().set("structure", J::from(desc.clone())));
+            return;
+        }
+        let got = tl_starts(&ctx.log.since(0), &order);
+        let want: Vec<(u32, u16)> = order.iter().map(|u| (*u, caller)).collect();
+        if got != want {
+            rep.violation(
+                "tl_sequence:nested_dispatcher",
+                &format!(
+                    "dispatch #{} ({}): thread-local systems started as {:?} (uid, thread); registration order on the calling thread {} is {:?}",
+                    di + 1,
+                    ["dispatch", "dispatch_seq + dispatch_thread_local", "RunNow::run_now"][how],
+                    got,
+                    caller,
+                    order
+                ),
+                case_no,
+                J::obj().set("structure", J::from(desc.clone())),
+            );
+            return;
+        }
+    }
+    rep.metric("nested_tl_dispatcher_cases", 1);
+    rep.nontrivial(mix(0x12e5, mix(depth as u64, order.len() as u64)));
+}
+
+/// C12, hand-made scenario: a thread-local system panics inside `wait()` of the async dispatcher;
+/// the caller catches it and calls `wait()` again (with or without a new `dispatch()`): that call
+/// runs every thread-local system, from the first one, on the calling thread.
+#[cfg(feature = "parallel")]
+fn c12_async_wait_after_tl_panic(rng: &mut Rng, pools: &mut Pools, rep: &mut Report, case_no: u64) {
+    use crate::sys::{HSys, HTl};
+    use shred::DispatcherBuilder;
+    rep.evaluations += 1;
+    let pool_size = *rng.pick(&[1usize, 2, 4]);
+    let pool = pools.get(pool_size);
+    let ctx = Ctx::new(32, 2048);
+    let mut b = DispatcherBuilder::new();
+    b.add_pool(pool.clone());
+    let mut uid = 1u32;
+    for _ in 0..rng.range(0, 2) {
+        let sp = SysSpec { uid, name: String::new(), deps: vec![], reads: vec![], writes: vec![], time: 3, kind: Kind::Dyn };
+        uid += 1;
+        b.add(HSys::new(&sp, &ctx), "", &[]);
+    }
+    let ntl = rng.range(2, 5);
+    let mut order = Vec::new();
+    for _ in 0..ntl {
+        let t = TlSpec { uid, reads: vec![], writes: vec![] };
+        uid += 1;
+        order.push(t.uid);
+        b.add_thread_local(HTl::new(&t, &ctx));
+    }
+    let mut ad = b.build_async(crate::res::full_world());
+    let caller = tid();
+    let victim = order[rng.below(order.len())];
+    let mut history = Vec::new();
+    ctx.set_mode(Mode::Run);
+    ctx.arm(Arc::new(Free));
+    for _ in 0..rng.range(0, 2) {
+        ad.dispatch();
+        ad.wait();
+        history.push("dispatch, wait".to_string());
+    }
+    ctx.inject[victim as usize].store(INJ_PANIC_RUN, SeqCst);
+    ad.dispatch();
+    let r = std::panic::catch_unwind(std::panic::AssertUnwindSafe(|| ad.wait()));
+    ctx.inject[victim as usize].store(INJ_NONE, SeqCst);
+    history.push(format!("dispatch, wait in which thread-local u{} panics ({})", victim, if r.is_err() { "caught" } else { "no panic surfaced" }));
+    if r.is_err() {
+        for step in 0..rng.range(1, 3) {
+            let redispatch = rng.chance(1, 2);
+            if redispatch {
+                ad.dispatch();
+            }
+            ctx.log.reset();
+            let r2 = std::panic::catch_unwind(std::panic::AssertUnwindSafe(|| ad.wait()));
+            history.push(if redispatch { "dispatch, wait".to_string() } else { "wait (no dispatch in between)".to_string() });
+            if let Err(p) = r2 {
+                rep.violation("wait_panicked_after_caught_tl_panic", &format!("wait() #{} after the caught panic panicked: {}", step + 1, payload_str(&*p)), case_no, J::obj().set("history", J::from(history.clone())));
+                ctx.set_mode(Mode::Build);
+                ctx.disarm();
+                return;
+            }
+            let got = tl_starts(&ctx.log.since(0), &order);
+            let want: Vec<(u32, u16)> = order.iter().map(|u| (*u, caller)).collect();
+            if got != want {
+                rep.violation(
+                    "tl_sequence:wait_after_caught_tl_panic",
+                    &format!("after a thread-local system panicked inside wait() (caught), a later wait() started the thread-local systems as {:?} (uid, thread); every one of {:?} is due, in this order, on thread {}", got, order, caller),
+                    case_no,
+                    J::obj().set("history", J::from(history.clone())),
+                );
+                ctx.set_mode(Mode::Build);
+                ctx.disarm();
+                return;
+            }
+        }
+        rep.nontrivial(mix(0x12a5, mix(ntl as u64, victim as u64)));
+    } else {
+        rep.metric("other_property_findings", 1);
+    }
+    ctx.set_mode(Mode::Build);
+    ctx.disarm();
+    let _ = ctx.take_violations();
+    rep.metric("async_wait_after_tl_panic_cases", 1);
+}
+
 pub fn run(args: &Args, prop: &str, up: &'static str, quick: u64, thorough: u64, execute_every: u64) -> i32 {
     let mut rep = Report::new(args);
     let mut pools = Pools::new();
@@ -931,6 +1191,19 @@ pub fn run(args: &Args, prop: &str, up: &'static str, quick: u64, thorough: u64,
         }
         let mut rng = Rng::new(args.case_seed(c));
         let execute = execute_every > 0 && (c % execute_every == 0 || tiny());
+        if (prop == "c02" || prop == "c03") && c == 11 && !tiny() && args.scale >= 1.0 && args.shard < if args.thorough { 4 } else { 1 } {
+            guard_case(&mut rep, c, |rep| deep_plan_case(&mut rng, up, rep, c));
+            continue;
+        }
+        if prop == "c12" && c % 40 == 13 {
+            guard_case(&mut rep, c, |rep| c12_nested_tl_dispatcher(&mut rng, &mut pools, rep, c));
+            continue;
+        }
+        #[cfg(feature = "parallel")]
+        if prop == "c12" && c % 40 == 27 && !tiny() {
+            guard_case(&mut rep, c, |rep| c12_async_wait_after_tl_panic(&mut rng, &mut pools, rep, c));
+            continue;
+        }
         guard_case(&mut rep, c, |rep| case(prop, up, &mut rng, &mut pools, rep, c, execute));
     }
     rep.finish();
